@@ -6,9 +6,11 @@ the per-observation `features` lists, every operation with the partial effects P
 `ATab` is the specification: an association list name ↦ column without any index. `Inv n st` says that `st`
 is aligned (the dict enumerates its distinct names, every observation carries exactly one value per listed
 name, `n` observations); `abs` forgets the indices. `Op` covers create / update / remove / bracket
-assignment / setObs / addAnalyticalFeature / unary, binary, scalar void operators / a non-void aggregate /
-`operate(str)` on an arbitrary RPN token list over `= + - *`. All statements are for every scalar type `V`
-and every interpretation `o : Ops V` of the arithmetic (the driver runs them at `Float`). -/
+assignment / setObs / addAnalyticalFeature / unary, binary, scalar void operators of every family (those whose
+arithmetic raises mid-way included) / value-returning aggregates / `computeAbsCurv`, `estimate_speed`,
+`segmentation` / `operate(str)` on an arbitrary RPN token list over `= + - * / ^ % < > & $ @`. All statements
+are for every scalar type `V`, every feature name (any string) and every interpretation `o : Ops V` of the
+arithmetic, exceptions included (the driver runs them at `Float`). -/
 set_option linter.unusedSectionVars false
 namespace TV.C01
 open TV.Features
